@@ -109,7 +109,10 @@ Definition okfld (e : expr) : bool :=
 
 (* same code, or two object literals that differ only in dead hidden fields *)
 Definition esim (e1 e2 : expr) : Prop :=
-  e1 = e2 \/ exists fs1 fs2, e1 = EObj fs1 /\ e2 = EObj fs2 /\ live fs1 = live fs2.
+  e1 = e2 \/
+  (exists fs1 fs2, e1 = EObj fs1 /\ e2 = EObj fs2 /\ live fs1 = live fs2) \/
+  (exists es1 es2, e1 = EArr es1 /\ e2 = EArr es2 /\
+                   Forall2 (fun a b => a = b \/ markerb a = true) es1 es2).
 
 Definition opt_rel {A} (R : A -> A -> Prop) (a b : option A) : Prop :=
   match a, b with
@@ -609,6 +612,18 @@ Proof.
     destruct (eval (S (S n3)) r e) as [t o]. simpl. left. left. reflexivity.
 Qed.
 
+Lemma arr_thunks_rel : forall r1 r2 es1 es2,
+  Forall2 (fun a b => a = b \/ markerb a = true) es1 es2 ->
+  (forall a, In a es1 -> In a es2 -> trelw (r1, a) (r2, a)) ->
+  Forall2 trelw (map (fun x => (r1, x)) es1) (map (fun x => (r2, x)) es2).
+Proof.
+  intros r1 r2 es1 es2 H. induction H as [|a b l1 l2 Hab Hl IH]; intros Hin; simpl; constructor.
+  - destruct Hab as [<-|Mk].
+    + apply Hin; left; reflexivity.
+    + intros [|k]; simpl; auto.
+  - apply IH. intros c H1 H2. apply Hin; right; assumption.
+Qed.
+
 Theorem fundamental : forall n r1 e1 r2 e2,
   trelw (r1, e1) (r2, e2) ->
   resrel (vrel trelw) (eval n r1 e1) (eval n r2 e2).
@@ -616,7 +631,14 @@ Proof.
   induction n as [|n IH]; intros r1 e1 r2 e2 H; [right; split; simpl; auto|].
   destruct (trelw_inv _ _ _ _ H) as [Mk|(Es & O1 & O2 & E)]; [left; apply marker_esc; exact Mk|].
   pose proof E as [L Sf].
-  destruct Es as [<- | (fs1 & fs2 & -> & -> & Lv)].
+  destruct Es as [<- | [(fs1 & fs2 & -> & -> & Lv) | (es1 & es2 & -> & -> & Fa)]].
+  3: { cbn [eval]. apply resrel_ret. simpl. apply arr_thunks_rel; [exact Fa|].
+       intros a Ha1 Ha2. apply trelw_intro; [left; reflexivity| | |].
+       - clear - O1 Ha1. unfold okfld in *. destruct D as [d|]; auto. simpl in O1. rewrite forallb_forall in O1. auto.
+       - clear - O1 Ha1. unfold okfld in *. destruct D as [d|]; auto. simpl in O1. rewrite forallb_forall in O1. auto.
+       - intros k. apply erel_trelw_level. eapply erel_weaken; [exact E| |].
+         + intros x [Hx _]. split; simpl; eapply existsb_in; eauto.
+         + intros Hs. simpl. eapply existsb_in; eauto. }
   2: { cbn [eval]. apply resrel_ret. simpl. split; [exact Lv|]. intros f Hf k. simpl.
        apply trel_obj; auto.
        - intros k' x Hx1 Hx2. specialize (L x (conj Hx1 Hx2)).
@@ -1097,7 +1119,7 @@ Proof.
   split.
   - intros e' He'. simpl. right. split; [left; reflexivity|]. split; [exact He'|]. split; [exact He'|].
     split; [intros y _; apply HL|intros _; exact HS].
-  - simpl. right. split; [right; eexists; eexists; split; [reflexivity|split; [reflexivity|apply live_dead_field]]|].
+  - simpl. right. split; [right; left; eexists; eexists; split; [reflexivity|split; [reflexivity|apply live_dead_field]]|].
     split; [exact Hfs|]. split; [exact Hfs2|].
     split; [intros y _; apply HL|intros Hs; discriminate].
 Qed.
@@ -1128,7 +1150,7 @@ Proof.
   { rewrite forallb_app in *. simpl in Hfs. apply andb_true_iff in Hfs. destruct Hfs as [A B].
     apply andb_true_iff in B. destruct B as [_ B]. rewrite A, B. reflexivity. }
   apply (run_rel_eq (Some d)). apply trelw_intro.
-  - right. eexists. eexists. split; [reflexivity|split; [reflexivity|apply live_dead_field]].
+  - right. left. eexists. eexists. split; [reflexivity|split; [reflexivity|apply live_dead_field]].
   - exact Hfs.
   - exact Hfs2.
   - intros k. split.
@@ -1220,5 +1242,57 @@ Proof.
   rewrite !E1 in *.
   pose proof (run_rel None (Some mk) (S fe) fc fm _ body _ body
                 (fun k => trel_undemanded_arg mk x e1 e2 r r k body)) as R.
+  destruct (resrel_eq (Some mk) _ _ _ R) as [[E|E]|E]; [contradiction|contradiction|symmetry; exact E].
+Qed.
+
+(* ... and for an array item that is never demanded: the array is bound by a local and used
+   by arbitrary code (indexing other items, concatenation, length-based equality, ...) *)
+Lemma items_marker_rel : forall mk (es1 es2 : list expr) e1 e2,
+  Forall2 (fun a b => a = b \/ markerb (Some mk) a = true) (es1 ++ marker mk e1 :: es2) (es1 ++ e2 :: es2).
+Proof.
+  intros mk es1 es2 e1 e2. induction es1 as [|a es1 IH]; simpl.
+  - constructor; [right; exact (markerb_marker mk e1)|]. induction es2; constructor; auto.
+  - constructor; auto.
+Qed.
+
+Lemma trel_undemanded_item : forall mk x es1 es2 e1 e2 r k,
+  (forall e', trel None (Some mk) k (RRec [(x, EArr (es1 ++ marker mk e1 :: es2))] r, e')
+                                    (RRec [(x, EArr (es1 ++ e2 :: es2))] r, e')) /\
+  trel None (Some mk) k (RRec [(x, EArr (es1 ++ marker mk e1 :: es2))] r, EArr (es1 ++ marker mk e1 :: es2))
+                        (RRec [(x, EArr (es1 ++ e2 :: es2))] r, EArr (es1 ++ e2 :: es2)).
+Proof.
+  intros mk x es1 es2 e1 e2 r. induction k as [|k [IH1 IH2]]; [split; simpl; auto|].
+  assert (HL : forall y,
+    opt_rel (trel None (Some mk) k)
+      (lookup y (RRec [(x, EArr (es1 ++ marker mk e1 :: es2))] r))
+      (lookup y (RRec [(x, EArr (es1 ++ e2 :: es2))] r))).
+  { intros y. simpl. destruct (name_eqb y x); simpl; [exact IH2|].
+    destruct (lookup y r) as [[tr te]|]; simpl; auto. apply trel_refl; [exact I|reflexivity]. }
+  assert (HS : opt_rel (orel None (trel None (Some mk) k))
+      (self_of (RRec [(x, EArr (es1 ++ marker mk e1 :: es2))] r))
+      (self_of (RRec [(x, EArr (es1 ++ e2 :: es2))] r))).
+  { simpl. destruct (self_of r) as [[fs r']|]; simpl; auto. apply orel_refl_marker. }
+  split.
+  - intros e'. simpl. right. split; [left; reflexivity|]. split; [reflexivity|]. split; [reflexivity|].
+    split; [intros y _; apply HL|intros _; exact HS].
+  - simpl. right. split.
+    + right. right. eexists. eexists. split; [reflexivity|split; [reflexivity|apply items_marker_rel]].
+    + split; [reflexivity|]. split; [reflexivity|].
+      split; [intros y _; apply HL|intros _; exact HS].
+Qed.
+
+Theorem laziness_monotone_item : forall fe fc fm r x es1 es2 e1 e2 body mk,
+  let res := run_in fe fc fm r (ELocal [(x, EArr (es1 ++ marker mk e1 :: es2))] body) in
+  ~ In mk (fst res) -> snd res <> OutOfFuel ->
+  run_in fe fc fm r (ELocal [(x, EArr (es1 ++ e2 :: es2))] body) = res.
+Proof.
+  intros fe fc fm r x es1 es2 e1 e2 body mk res Hm Hf. subst res.
+  destruct fe as [|fe]; [exfalso; apply Hf; reflexivity|].
+  change (run_in (S fe) fc fm r (ELocal [(x, EArr (es1 ++ marker mk e1 :: es2))] body))
+    with (run_in fe fc fm (RRec [(x, EArr (es1 ++ marker mk e1 :: es2))] r) body) in *.
+  change (run_in (S fe) fc fm r (ELocal [(x, EArr (es1 ++ e2 :: es2))] body))
+    with (run_in fe fc fm (RRec [(x, EArr (es1 ++ e2 :: es2))] r) body).
+  pose proof (run_rel None (Some mk) fe fc fm _ body _ body
+                (fun k => proj1 (trel_undemanded_item mk x es1 es2 e1 e2 r k) body)) as R.
   destruct (resrel_eq (Some mk) _ _ _ R) as [[E|E]|E]; [contradiction|contradiction|symmetry; exact E].
 Qed.
